@@ -325,6 +325,11 @@ class IntEval:
             return -v if isinstance(e.op, ast.USub) else (not v if isinstance(e.op, ast.Not) else +v)
         if isinstance(e, ast.BinOp):
             a, b = self.ev(e.left, env), self.ev(e.right, env)
+            for x in (a, b):
+                if isinstance(x, tuple) and x and isinstance(x[0], str) and x[0].endswith("-ERROR"):
+                    return x        # an exception would be raised here: propagate it as the result
+            if not isinstance(a, (int, bool)) or not isinstance(b, (int, bool)):
+                return ("TYPE-ERROR", src(e))
             ops = {ast.Add: lambda: a + b, ast.Sub: lambda: a - b, ast.Mult: lambda: a * b, ast.Mod: lambda: a % b,
                    ast.FloorDiv: lambda: a // b}
             if type(e.op) in ops:
